@@ -1,5 +1,6 @@
-(* Sequential handle/block machine mirroring the release paths of String, Variant and
-   RefCount::Ptr (include/nstd/String.hpp, Variant.hpp, RefCount.hpp).  NO proofs here.
+(* Sequential handle/block machine mirroring the release paths of String, Variant,
+   RefCount::Ptr and Xml::Variant (include/nstd/String.hpp, Variant.hpp, RefCount.hpp,
+   Document/Xml.hpp).  NO proofs here.
 
    A block is a heap payload with its reference counter (String::Data::ref, Variant::Data::ref,
    RefCount::Object::ref).  A variable is a C++ object of the handle type: dead storage, or a
@@ -14,7 +15,7 @@ From Common Require Import ListAux.
 Import ListNotations.
 Local Open Scope Z_scope.
 
-Inductive flavour := FStr | FVar | FPtr.
+Inductive flavour := FStr | FVar | FPtr | FXml.
 Inductive handle := HNone | HBlock (b : nat).
 Inductive var := VDead | VLive (refh objh : handle).
 Inductive fault := FUaf (b : nat) | FDouble (b : nat) | FUnderflow (b : nat) | FSharedWrite (b : nat).
@@ -66,6 +67,7 @@ Definition alloc (s : state) (r l c : Z) : state * nat :=
       vars := vars s; flt := flt s |}, length (heap s)).
 
 Definition is_ptr (f : flavour) : bool := match f with FPtr => true | _ => false end.
+Definition is_var (f : flavour) : bool := match f with FVar => true | _ => false end.
 
 (* `if(data->ref && Atomic::decrement(data->ref) == 0) delete[] data;`      (String, Variant)
    `if(refObj && Atomic::decrement(refObj->ref) == 0) delete refObj;`       (Ptr: no read of ref) *)
@@ -161,7 +163,7 @@ Definition step_gen (obj_only : bool) (f : flavour) (s : state) (o : op) : state
       | VDead =>
           match f with
           | FStr => let '(s, b) := alloc s 1 n (Z.lor n 3) in setv s v (both (HBlock b))
-          | FVar => let '(s, b) := alloc s 1 n 0 in setv s v (both (HBlock b))
+          | FVar | FXml => let '(s, b) := alloc s 1 n 0 in setv s v (both (HBlock b))
           | FPtr => let '(s, b) := alloc s 0 n 0 in        (* Object() : ref(0) *)
                     let s := setv s v (both (HBlock b)) in inc s b
           end
@@ -213,8 +215,9 @@ Definition step_gen (obj_only : bool) (f : flavour) (s : state) (o : op) : state
                   let '(s, nb) := alloc s 1 0 3 in
                   setv s d (both (HBlock nb))
               end
-          | FVar =>
-              if Nat.eqb d sv then s else
+          | FVar | FXml =>
+              (* Variant: `if(&other != this)`; Xml::Variant has no such test *)
+              if is_var f && Nat.eqb d sv then s else
               match r with
               | HBlock b =>
                   let s := touch s b in
@@ -253,12 +256,14 @@ Definition step_gen (obj_only : bool) (f : flavour) (s : state) (o : op) : state
       match f, getv s v with
       | FStr, VLive r _ => str_detach s v r 1
       | FVar, VLive r _ => var_detach s v r 1
+      | FXml, VLive r _ => var_detach s v r 1
       | _, _ => s
       end
   | ODetach v =>
       match f, getv s v with
       | FStr, VLive r _ => str_detach s v r 0
       | FVar, VLive r _ => var_detach s v r 0
+      | FXml, VLive r _ => var_detach s v r 0
       | _, _ => s
       end
   | ODestroy v =>
